@@ -39,7 +39,7 @@ def gen_case(rng):
                 max_iter=rng.choice([3, 4, 6, 9]) if mixed else rng.choice([1, 2, 5, 10, 20, 40, 60]),
                 mem=rng.choice([1, 1, 2]) if mixed else rng.choice([1, 2, 5, 10]), extra_out=rng.random() < 0.6,
                 downstream=rng.random() < 0.6, batch=rng.randint(4, 10) if mixed else rng.randint(1, 10), mixed=mixed,
-                seed=rng.randrange(10 ** 9))
+                seed=rng.randrange(10 ** 9), poison=rng.random() < 0.35)
 
 
 class Log:
@@ -66,6 +66,9 @@ def build(case, log):
                     cj = np.atleast_1d(inputs[f'c{j}']).astype(float)
                     acc = acc + case['M'][i][j] * (cj if case['kind'] == 'affine' else np.sin(cj))
             out = {f'c{i}': r * acc + case['b'][i]}
+            if i == 0 and case.get('poison_sid') is not None:
+                # the model is undefined (NaN) on one sample of the batch from the very first sweep on
+                out['c0'] = np.where(np.atleast_1d(inputs['sid']) == case['poison_sid'], np.nan, out['c0'])
             if case['extra_out']:
                 out[f'e{i}'] = 10.0 + out[f'c{i}'] * 2.0
             log.calls.append((f'm{i}', np.atleast_1d(inputs['sid']).copy(),
@@ -96,6 +99,9 @@ def run_case(ctx, res, case, lines, post):
             for _ in range(N)]
     x = {'sid': np.arange(N, dtype=float), 'rho': np.array(rhos)}
     log = Log()
+    case = dict(case)
+    case['poison_sid'] = rng.randrange(N) if case.get('poison') and N >= 2 else None
+    psid = case['poison_sid']
     system = build(case, log)
     kw = dict(max_fpi_iter=case['max_iter'], fpi_tol=case['tol'], anderson_mem=case['mem'], normalized_inputs=False)
     y = system.predict(dict(x), **kw)
@@ -105,6 +111,11 @@ def run_case(ctx, res, case, lines, post):
     C = np.stack([np.asarray(y[c], dtype=float).reshape(N) for c in cnames], axis=1)     # (N, n)
     conv = ~np.any(np.isnan(C), axis=1)
     # ---- oracle ----
+    if psid is not None:
+        res.hit('batch-with-a-NaN-sample')
+        if conv[psid]:
+            res.failures.append({'kind': 'sample-on-which-the-model-is-NaN-returned-as-converged', 'input': {**info, 'sample': psid},
+                                 'observed': C[psid].tolist()})
     for s in range(N):
         if conv[s]:
             c = C[s]
@@ -134,6 +145,8 @@ def run_case(ctx, res, case, lines, post):
     # ---- batch independence & more iterations ----
     if N >= 2:
         sub = sorted(rng.sample(range(N), rng.randint(1, N - 1)))
+        if psid is not None:   # the healthy samples alone: their result must not depend on the NaN sample being in the batch
+            sub = [s_ for s_ in range(N) if s_ != psid]
         log2 = Log()
         y2 = build(case, log2).predict({'sid': x['sid'][sub], 'rho': x['rho'][sub]}, **kw)
         for v in y:
@@ -172,6 +185,8 @@ def run_case(ctx, res, case, lines, post):
                 res.failures.append({'kind': 'loop-members-evaluated-on-different-sample-sets', 'input': info}); return
         for pos, sidv in enumerate(sids):
             s = int(sidv)
+            if s == psid:
+                continue      # NaN iterates of the poisoned sample: not representable in the (rational) model trace
             prev, yv = [None] * n, [None] * n
             for c in sw:
                 i = int(c[0][1:])
@@ -185,6 +200,8 @@ def run_case(ctx, res, case, lines, post):
                         prev[j] = val
             sweeps.setdefault(s, []).append((prev, yv))
     for s in range(N):
+        if s == psid:
+            continue      # NaN iterates are not representable in the (rational) model trace
         tr = sweeps.get(s, [])
         if not tr:
             res.failures.append({'kind': 'sample-never-evaluated', 'input': {**info, 'sample': s}}); continue
@@ -284,7 +301,7 @@ def run(ctx: core.Ctx, only=None) -> core.Result:
     lines, post = [], []
     cases = [o.get('input', o) for o in only] if only is not None else core.corpus_cases('C06') + \
         [gen_case(ctx.rng) for _ in range(ctx.scale(40, 600))]
-    keys = ('n', 'kind', 'M', 'b', 'tol', 'max_iter', 'mem', 'extra_out', 'downstream', 'batch', 'seed', 'mixed')
+    keys = ('n', 'kind', 'M', 'b', 'tol', 'max_iter', 'mem', 'extra_out', 'downstream', 'batch', 'seed', 'mixed', 'poison')
     if only is None:
         cases = cases + [{'two_loops': ctx.rng.randrange(10 ** 6)} for _ in range(ctx.scale(6, 60))]
     for case in cases:
